@@ -113,8 +113,11 @@ Expect(ev) ==
                      Go(ww, i) == IF i > Len(ev.ret) THEN ww ELSE Go(DoNew(ww, ev.ret[i], {}, EmptyFn, EmptyFn), i + 1)
                  IN R(TRUE, Go(w, 1), SetOf(ev.ret))
       [] ev.op = "QOpen" ->
-            IF ev.q \in DOMAIN w.open \/ ~FilterOK(w, flt) \/ ~TargetsOK(w, FltTargets(flt)) \/ Cardinality(DOMAIN w.open) >= 63
+            IF ev.q \in DOMAIN w.open \/ ~FilterOK(w, flt) \/ Cardinality(DOMAIN w.open) >= 63
             THEN [def |-> FALSE, pre |-> TRUE, w2 |-> w, foot |-> {}]
+            ELSE IF ~TargetsOK(w, FltTargets(flt))
+            THEN (IF ev.mode = "typed" THEN R(FALSE, w, {})     \* a removed entity named as target: rejected, nothing changes
+                  ELSE [def |-> FALSE, pre |-> TRUE, w2 |-> w, foot |-> {}])
             ELSE R(TRUE, DoQOpen(w, ev.q, flt), {})
       [] ev.op = "QNext" ->
             IF ev.q \notin DOMAIN w.open THEN [def |-> FALSE, pre |-> TRUE, w2 |-> w, foot |-> {}]
@@ -184,7 +187,7 @@ CheckOp(ev) ==
         got == LoggedEnt(ev.st)
         made == CreatedBy(ev)
         isBatch == ev.op \in {"AddBatch", "RemoveBatch", "ExchangeBatch", "SetRelBatch", "KillBatch"}
-        lockMis == Locked(w) /\ ev.op # "Set"
+        lockMis == Locked(w) /\ ev.op \notin {"Set", "QOpen"}
         vPanic ==
             IF x.pre /\ ev.panic
             THEN (IF ev.op \in {"QOpen", "QNext", "QClose", "DumpLoad"} THEN {}
@@ -214,9 +217,15 @@ CheckOp(ev) ==
             ELSE IF isBatch THEN "C06.state"
             ELSE IF kind = "t" THEN "C04.target"
             ELSE IF kind = "c" THEN "C01.compset" ELSE "C01.value"
+        \* C11: pointer-bearing components decode to a marker when their pointee data is wrong / left behind;
+        \* a component added without an initial value must read as its zero value
+        VCls(h) == IF \E c \in DOMAIN got[h].v : got[h].v[c] = -777 THEN "C11.pointee"
+                   ELSE IF \E c \in DOMAIN got[h].v : got[h].v[c] = -778 THEN "C11.dirty"
+                   ELSE IF ev.mode = "noinit" /\ h \in x.foot /\ x.pre /\ ~ev.panic THEN "C11.dirty"
+                   ELSE Cls(h, "v")
         vEnt == UNION {
                   (IF got[h].c # exp.ent[h].c THEN {V(Cls(h, "c"), <<h, got[h].c>>)} ELSE {})
-                  \cup (IF got[h].c = exp.ent[h].c /\ got[h].v # exp.ent[h].v THEN {V(Cls(h, "v"), <<h, got[h].v>>)} ELSE {})
+                  \cup (IF got[h].c = exp.ent[h].c /\ got[h].v # exp.ent[h].v THEN {V(VCls(h), <<h, got[h].v>>)} ELSE {})
                   \cup (IF got[h].c = exp.ent[h].c /\ got[h].t # exp.ent[h].t THEN {V(Cls(h, "t"), <<h, got[h].t>>)} ELSE {})
                   : h \in common}
         vLock == IF ev.st.locked # Locked(exp)
@@ -245,7 +254,10 @@ CheckOp(ev) ==
         PhOf(i) == IF \E c \in want : c.o = ev.cbs[i].o /\ c.e = ev.cbs[i].e
                    THEN (CHOOSE c \in want : c.o = ev.cbs[i].o /\ c.e = ev.cbs[i].e).ph ELSE "none"
         isBatchOp == isBatch \/ ev.op = "NewBatch"
-        vC09 == UNION {
+        \* C09: the entity handed to a callback is one the operation affects
+        affected == x.foot \cup SetOf(CreatedBy(ev)) \cup (IF ev.op = "Emit" THEN {ev.e} ELSE {})
+        vWrongE == IF ok THEN {V("C09.wrong-entity", ev.cbs[i].e) : i \in {j \in DOMAIN ev.cbs : ev.cbs[j].e \notin affected}} ELSE {}
+        vC09 == vWrongE \cup UNION {
                   LET cb == ev.cbs[i] ph == PhOf(i) cw == CbWorld(ev, x, ph) IN
                   IF ph = "none" \/ ev.op = "DumpLoad" THEN {}
                   ELSE (IF cb.panic THEN {V("C09.callback-panicked", cb.e)} ELSE {})
@@ -269,7 +281,7 @@ CheckOp(ev) ==
                    ELSE {V("C03.missing", h) : h \in oq.rem}
               ELSE IF ev.op = "QNext" /\ ev.q \in DOMAIN w.open /\ ev.panic THEN {V("C03.query-panicked", ev.q)}
               ELSE IF ev.op = "QClose" /\ ev.panic THEN {V("C07.close-twice", ev.q)}
-              ELSE IF ev.op = "QOpen" /\ ev.panic /\ x.def THEN {V("C07.read-failed", ev.q)}
+              ELSE IF ev.op = "QOpen" /\ ev.panic /\ x.def /\ x.pre THEN {V("C07.read-failed", ev.q)}
               ELSE {}
         \* C15: capacities after an unbounded Shrink (or a converged loop of bounded ones), convergence
         Pow2(n) == CHOOSE p \in {1, 2, 4, 8, 16, 32, 64, 128, 256, 512, 1024, 2048, 4096} : p >= n /\ (p = 1 \/ p \div 2 < n)
@@ -322,7 +334,13 @@ CheckProbe(ev) ==
                          \cup (IF ev.count # ev.twin_count THEN {V("C05.count", <<ev.count, ev.twin_count>>)} ELSE {})
                          \cup (IF Bag(ev.at) # Bag(ev.twin_at) THEN {V("C05.entityAt", <<ev.at, ev.twin_at>>)} ELSE {})
                          \cup (IF ev.panic # ev.twin_panic THEN {V("C05.panic-differs", ev.panic)} ELSE {})
-    IN IF ~FilterOK(w, flt) \/ ~TargetsOK(w, FltTargets(flt)) THEN {}
+        \* C13: probes recorded by concurrently running goroutines; Count = -1: closed without iterating
+        concV == IF ev.count = -1 THEN (IF ev.panic THEN {V("C13.result", "panic")} ELSE {})
+                 ELSE {[v EXCEPT !.cls = "C13.result"] : v \in vMissing \cup vExtra \cup vDupl \cup vData \cup vCount \cup vPanic}
+                      \cup (IF ev.at # <<>> /\ Bag(ev.at) # Bag(es) THEN {V("C13.result", <<"EntityAt", ev.at>>)} ELSE {})
+    IN IF ev.api = "conc-end" THEN (IF ev.count # 0 THEN {V("C13.locked", "world locked after all goroutines finished")} ELSE {})
+       ELSE IF ~FilterOK(w, flt) \/ ~TargetsOK(w, FltTargets(flt)) THEN {}
+       ELSE IF ev.api = "conc" THEN concV
        ELSE vMissing \cup vExtra \cup vDupl \cup vData \cup vCount \cup vAt \cup vPanic \cup vTwin
 
 (***************************************************************************)
@@ -433,6 +451,11 @@ TNext ==
          [] ev.k = "stats" /\ ~skip ->
                 /\ viol' = viol \o SetToSeq(CheckStats(ev))
                 /\ UNCHANGED <<w, skip, seqno, rg>>
+         [] ev.k = "mem" /\ ~skip ->   \* C11: heap objects of pointer-bearing components after forced garbage collections
+                LET lost == SetOf(ev.final) \cap SetOf(ev.refd)
+                    kept == (SetOf(ev.alloc) \ SetOf(ev.refd)) \ SetOf(ev.final)
+                IN /\ viol' = viol \o SetToSeq({V("C11.lost", s) : s \in lost} \cup {V("C11.retained", s) : s \in kept})
+                   /\ UNCHANGED <<w, skip, seqno, rg>>
          [] ev.k = "reg" ->
                 LET r == RegStep(ev) IN
                 /\ viol' = viol \o SetToSeq(r.vs)
